@@ -100,7 +100,7 @@ cgstrs(trans_t trans, SuperMatrix *L, SuperMatrix *U,
     if ( trans != NOTRANS && trans != TRANS && trans != CONJ ) *info = -1;
     else if ( L->nrow != L->ncol || L->nrow < 0 ) *info = -2;
     else if ( U->nrow != U->ncol || U->nrow < 0 ) *info = -3;
-    else if ( ldb < SUPERLU_MAX(0, L->nrow) ) *info = -6;
+    else if ( B->ncol < 0 || ldb < SUPERLU_MAX(0, L->nrow) ) *info = -6;
     if ( *info ) {
         i = -(*info);
 	xerbla_("cgstrs", &i);
